@@ -87,7 +87,12 @@ fn layer_scorer(tier: Tier, st: &mut Stats) {
     let res = par_explore(1 << 10, |hi, st| {
         for lo in 0..(1u32 << 6) {
             let mask = ((hi as u32) << 6) | lo;
-            let entries: Vec<(u32, u32, i32)> = grid.iter().enumerate().filter(|(i, _)| mask & (1 << i) != 0).map(|(i, &(a, b))| (a, b, (i as i32 + 1) * if i % 3 == 0 { -7 } else { 11 })).collect();
+            let entries: Vec<(u32, u32, i32)> = grid.iter().enumerate().filter(|(i, _)| mask & (1 << i) != 0).map(|(i, &(a, b))| (a, b, match i % 5 {
+                // costs beyond 16 bits (the scorer keeps 32-bit costs), small ones otherwise
+                1 => 40_000 + i as i32,
+                3 => -70_000 - i as i32,
+                _ => (i as i32 + 1) * if i % 3 == 0 { -7 } else { 11 },
+            })).collect();
             check_scorer(&entries, &q1, &q2, false, st);
             st.count("scorer_key_sets_4x4");
             if mask % 16 == 5 {
